@@ -73,6 +73,17 @@ func (x g) primType() spec.T { return rapid.SampledFrom(primTypes).Draw(x.t, "pt
 
 // member draws one value of type et (nulls allowed at any depth when asked).
 func (x g) member(et spec.T, allowNull bool) spec.V {
+	// members whose cty hashes collide (CRC-32): a lookup keyed by Value.Hash
+	// alone conflates them
+	if et.K == spec.KString && x.oneIn(6, "collide") {
+		return spec.KnownStr(gen.CollidingString(x.t, "cstr"))
+	}
+	if et.K == spec.KNumber && x.oneIn(8, "collide") {
+		return spec.KnownNum(gen.CollidingNum(x.t, "cnum"))
+	}
+	if et.K == spec.KList && et.E.K == spec.KString && x.oneIn(6, "collide") {
+		return listOf(spec.String, []spec.V{spec.KnownStr(gen.CollidingString(x.t, "cstr"))})
+	}
 	if et.K == spec.KNumber && x.oneIn(5, "tenth") {
 		// tenths through the float64 and the parsed route: numerically different,
 		// equal under the documented (text-based) number equality
